@@ -755,14 +755,7 @@ func CanonicalIsomorphAllocated(n, m int, neighbours [][]int, op *CanonicalOrder
 
 				}
 
-				//Do the same for the currentBest
-				//Heuristic 2
-				if count > 0 && ints.HasPrefix(currentBestPath, path[:len(path)-1]) {
-					if currentBestOrbits[choiceElement] >= 0 {
-						skipDeage = true
-						continue jLoop
-					}
-				}
+				//Note: children must not also be pruned by currentBestOrbits. That test is unsound (those automorphisms need not fix the current path) and lost the best leaf for some relabellings of regular graphs on 8 vertices, e.g. graph6 G|WW}K and GhcqSK.
 
 				//Success
 				worse := op.splitBin(choicePosition, neighbours, currentBest, firstLeaf)
